@@ -234,6 +234,20 @@ func (r *Registry) checkHistogramNameCollision(metricName string) error {
 	return nil
 }
 
+// checkObserverNameCollision rejects a histogram or summary whose name or
+// companion series names (name+suffix) are taken already. A companion name
+// collides with any registered metric of that name, whatever its type: two
+// observers x and x_sum expose the same series name x_sum just like an observer
+// x and a counter x_sum do, and the registry fails every later scrape.
+func (r *Registry) checkObserverNameCollision(metricName string, suffixes ...string) error {
+	for _, suffix := range suffixes {
+		if _, ok := r.Metrics[metricName+suffix]; ok {
+			return fmt.Errorf("metrics.Metric with name %s is already registered", metricName)
+		}
+	}
+	return r.checkHistogramNameCollision(metricName)
+}
+
 func (r *Registry) GetGauge(metricName string, labels prometheus.Labels, help string, mapping *mapper.MetricMapping, metricsCount *prometheus.GaugeVec) (prometheus.Gauge, error) {
 	hash, labelNames := r.HashLabels(labels)
 	vh, mh := r.Get(metricName, hash, metrics.GaugeMetricType)
@@ -289,14 +303,8 @@ func (r *Registry) GetHistogram(metricName string, labels prometheus.Labels, hel
 	if r.MetricConflicts(metricName, metrics.HistogramMetricType) {
 		return nil, fmt.Errorf("metrics.Metric with name %s is already registered", metricName)
 	}
-	if r.MetricConflicts(metricName+"_sum", metrics.HistogramMetricType) {
-		return nil, fmt.Errorf("metrics.Metric with name %s is already registered", metricName)
-	}
-	if r.MetricConflicts(metricName+"_count", metrics.HistogramMetricType) {
-		return nil, fmt.Errorf("metrics.Metric with name %s is already registered", metricName)
-	}
-	if r.MetricConflicts(metricName+"_bucket", metrics.HistogramMetricType) {
-		return nil, fmt.Errorf("metrics.Metric with name %s is already registered", metricName)
+	if err := r.checkObserverNameCollision(metricName, "_sum", "_count", "_bucket"); err != nil {
+		return nil, err
 	}
 	if err := checkLabelNames(labelNames, model.BucketLabel); err != nil {
 		return nil, err
@@ -356,11 +364,8 @@ func (r *Registry) GetSummary(metricName string, labels prometheus.Labels, help 
 	if r.MetricConflicts(metricName, metrics.SummaryMetricType) {
 		return nil, fmt.Errorf("metrics.Metric with name %s is already registered", metricName)
 	}
-	if r.MetricConflicts(metricName+"_sum", metrics.SummaryMetricType) {
-		return nil, fmt.Errorf("metrics.Metric with name %s is already registered", metricName)
-	}
-	if r.MetricConflicts(metricName+"_count", metrics.SummaryMetricType) {
-		return nil, fmt.Errorf("metrics.Metric with name %s is already registered", metricName)
+	if err := r.checkObserverNameCollision(metricName, "_sum", "_count"); err != nil {
+		return nil, err
 	}
 	if err := checkLabelNames(labelNames, model.QuantileLabel); err != nil {
 		return nil, err
